@@ -83,9 +83,10 @@ hc_prop("C02",
     dict(quick=500, thorough=15000), require=["deliveries", "scenarios_quiescent"])
 
 hc_prop("C05",
-    lambda tier: [hc("ideal", 2500, 100000, tier, "C05", packets=T(tier, 300, 1500))],
-    GEN + "ideal family: no faults, constant latency per direction, bursts above window / allocation / flush budget, both directions. non-trivial: >= 50 packets delivered.",
-    "Equality oracle: delivered sequence (all channels) must be the submission sequence minus TimeSensitive packets; a fully transmitted TimeSensitive packet must not be skipped; at quiescence every non-TimeSensitive packet delivered exactly once; a scenario that stops making progress with a backlog (the progress monitor's stall signature) counts as packets not delivered.",
+    lambda tier: [hc("ideal", 2500, 100000, tier, "C05", packets=T(tier, 300, 1500)),
+                  dict(family="ep-ideal", n=T(tier, 150, 6000), params={})],
+    GEN + "ideal family: no faults, constant latency per direction, bursts above window / allocation / flush budget, both directions. ep-ideal: a real Client and Server configured independently (what each may send 100 B..1 MB, what each can hold 3 kB..1 MB, rates 0.1..10 MB/s: each end has to use the OTHER's advertised allowance), ideal network, both applications submitting up to 1500 packets of every mode in bursts of up to 200 per step, until both ends report nothing pending. non-trivial: >= 50 packets delivered (ep-ideal: finished with >= 100 packets).",
+    "Equality oracle: delivered sequence (all channels) must be the submission sequence minus TimeSensitive packets; a fully transmitted TimeSensitive packet must not be skipped; at quiescence every non-TimeSensitive packet delivered exactly once; a scenario that stops making progress with a backlog (the progress monitor's stall signature) counts as packets not delivered. Endpoint level: each application's Receive events are exactly the other's submissions in order, TimeSensitive ones possibly missing.",
     "sequence-equality oracle over fault-free executions",
     dict(quick=800, thorough=20000), require=["deliveries"],
     also=["C02:stall", "C11:stall"])
@@ -139,7 +140,8 @@ hc_prop("C04",
 hc_prop("C06",
     lambda tier: [dict(family="hostile-rx", n=T(tier, 48, 1500), params={"batch": 20, "frames": T(tier, 2000, 6000)}),
                   hc("alloc-pair", 1500, 60000, tier, "C06"),
-                  hc("faulty", 500, 20000, tier, "C06")],
+                  hc("faulty", 500, 20000, tier, "C06"),
+                  dict(family="ep-ideal", n=T(tier, 150, 6000), params={})],
     GEN + "hostile-rx: a real receiving HalfConnection fed CRC-valid hostile frames (claimed fragment counts up to 65536, ids inside/outside/aliasing the window, never-completing packets, ack-group floods with jumping frame ids, inconsistent parent leads), receive allocation 1 B..5 MB, receive cadence from every frame to never; the checking allocator's scoped live-byte counter is sampled after every call. alloc-pair: honest pairs with tiny allocations/windows so the sender sits at the limit. non-trivial: receive allocation driven to >= 90 % or >= 50 datagrams handled (hostile), sender at its window or allocation limit (pair).",
     "Receiver: scoped heap of the connection <= heap at construction + max_receive_alloc rounded up to a fragment (+0.2 %) + 192 kB of protocol-constant state, after every call of a hostile stream. Sender: boundary model of outstanding packets/bytes vs the peer's advertised limits. Pair: placeholder ('dud') counter stays zero.",
     "scoped heap monitor (checking allocator) under hostile input + boundary-model monitor",
@@ -225,8 +227,9 @@ hc_prop("C19",
                   dict(family="frag-rx", n=T(tier, 40, 2000), params={"batch": 10, "packets": 60}),
                   dict(family="lifecycle", n=T(tier, 300, 10000), params={}),
                   dict(family="disconnect", n=T(tier, 300, 10000), params={}),
-                  dict(family="limits", n=T(tier, 100, 4000), params={})] + MIRI_RUNS(tier),
-    GEN + "Every scenario runs under the checking global allocator (layout recorded at alloc, compared at dealloc/realloc; live bytes of calls into uflow counted per scope); at the end both HalfConnections are dropped mid-state (delivered, skipped, partially assembled, resynchronised-away packets). Endpoint families (lifecycle, disconnect, limits): real Client / Server / RemoteClient handles created, connected, disconnected, timed out and dropped in every state of the lifecycle (also mid-transfer and mid-handshake, Server dropped with live connections); after the whole world is dropped the bytes allocated inside calls into uflow must be back to where they were. non-trivial: teardown checked and >= 1 reassembled multi-fragment packet freed (endpoint families: teardown checked).",
+                  dict(family="limits", n=T(tier, 100, 4000), params={}),
+                  dict(family="ep-partial-read", n=T(tier, 100, 3000), params={})] + MIRI_RUNS(tier),
+    GEN + "Every scenario runs under the checking global allocator (layout recorded at alloc, compared at dealloc/realloc; live bytes of calls into uflow counted per scope); at the end both HalfConnections are dropped mid-state (delivered, skipped, partially assembled, resynchronised-away packets). Endpoint families (lifecycle, disconnect, limits): real Client / Server / RemoteClient handles created, connected, disconnected, timed out and dropped in every state of the lifecycle (also mid-transfer and mid-handshake, Server dropped with live connections); after the whole world is dropped the bytes allocated inside calls into uflow must be back to where they were; ep-partial-read: applications that read only the first 0..2 events of a step's iterator and drop it (unread Receive payloads stay the library's to release). non-trivial: teardown checked and >= 1 reassembled multi-fragment packet freed (endpoint families: teardown checked).",
     "Allocator-contract monitor on every free in every scenario + leak check at teardown (scoped live bytes return to the pre-construction value). The thorough tier adds the same families under AddressSanitizer/LeakSanitizer (nightly) and a small subset interpreted by Miri with tree borrows (UB, layout on deallocation, leaks, data races incl. a Send/Sync workload).",
     "checking global allocator (layout match, scoped leak check) over fault-injected executions",
     dict(quick=800, thorough=20000), require=["teardowns_checked", "delivered_multifrag", "endpoint_teardowns_checked"])
@@ -292,17 +295,17 @@ ep_prop("C10",
 ep_prop("C17",
     lambda tier: [ep("limits", 2500, 80000, tier, "C17")],
     "limits: max_active 1..8, max_total up to 16, 1..40 clients arriving in bursts, staggered or in waves; all first ACKs lost (many SYNs before any ACK), lossy handshakes; connections ended by disconnect from either side, Client drop, Server::drop or silent death (timeout); clients that disconnected come back from the same address 0.1..9 s later and stay; a late wave of max_total+2 handshakes from fresh addresses whose ACKs are all lost arrives 26..48 s in (after the server's 20 s memory of ended connections has expired); finally everything ends and, 50 s later, a fresh client must connect. non-trivial: more clients than max_active and >= 1 connection ended by the script.",
-    "Counters after every server call: connections between Connect and their terminal event / the server's own Disconnect <= max_active_connections; addresses for which Server::client() is Some <= max_total_connections; ServerFull refusals are mirrored by server error events when enabled; capacity is available again after everything ended. Offline admission check from wire + events only (independent of the server's own table): at every newly admitted handshake (fresh SYN-ACK nonce pair) the established connections plus the handshakes provably in progress (same SYN-ACK repeated later / Connect later) number < max_total_connections.",
+    "Counters after every server call: connections between Connect and their terminal event / the server's own Disconnect <= max_active_connections; addresses for which Server::client() is Some <= max_total_connections; ServerFull refusals are mirrored by server error events when enabled; capacity is available again after everything ended. Offline admission check from wire + events only (independent of the server's own table): at every newly admitted handshake (fresh SYN-ACK nonce pair) the established connections plus the handshakes provably in progress (same SYN-ACK repeated later / Connect later) number < max_total_connections; conversely every ServerFull refusal needs a reason: an upper bound of what the server can still hold at that instant (reported and not ended, ended by the peer's Disconnect < 20 s ago, admitted < 22 s ago) must reach a limit (`refused-although-capacity-free`: entries kept beyond their documented lifetime show here).",
     "online counters over the server's event stream and public lookup",
-    dict(quick=1200, thorough=30000), require=["c17_refused_with_serverfull", "c17_capacity_reuse_checked", "c17_connections_ended_by_script", "c17_admissions_checked", "c17_reconnects_from_same_address", "c17_late_wave_handshakes"],
+    dict(quick=1200, thorough=30000), require=["c17_refused_with_serverfull", "c17_capacity_reuse_checked", "c17_connections_ended_by_script", "c17_admissions_checked", "c17_reconnects_from_same_address", "c17_late_wave_handshakes", "c17_refusals_checked"],
     also=["C07:established-connection-untracked"])
 
 ep_prop("C18",
     lambda tier: [ep("amplify", 3000, 100000, tier, "C18"),
                   ep("handshake", 200, 10000, tier, "C18"),
                   ep("limits", 200, 10000, tier, "C18")],
-    "amplify: 1..30 spoofable addresses each send 1..25 datagrams over 28 s: valid SYNs (same and fresh nonce), wrong-version and configuration-refused SYNs, SYN-typed datagrams of every length 5..1471 with a valid CRC, oversized datagrams, stray frames of every other type; default and full servers; 55 s of server time so every SYN-ACK resend happens. non-trivial: the server sent >= 1 byte to a spoofable address.",
-    "Per-address byte counters kept by the virtual network, checked after every server call: for an address that has not completed the handshake, bytes sent to it stay below bytes received from it; an address that only sent undersized SYN-typed datagrams receives nothing.",
+    "amplify: 1..30 spoofable addresses each send 1..25 datagrams over 28 s: valid SYNs (same and fresh nonce), wrong-version and configuration-refused SYNs, SYN-typed datagrams of every length 5..1471 with a valid CRC, oversized datagrams, stray frames of every other type; the shortest datagrams there are (0..8 bytes of zeros / ones / the CRC of nothing), flooders (a valid SYN then 50..400 small frames of one type, also numbered from the SYN's own nonce); default and full servers, one in five configured with an active timeout of 2 min..1 h and watched for 10 min (otherwise 55 s, so every SYN-ACK resend happens); the server application greets new connections with 0..8 kB. non-trivial: the server sent >= 1 byte to a spoofable address.",
+    "Per-address byte counters kept by the virtual network, checked after every server call: for an address from which no ACK echoing a nonce the server sent it has been delivered (verification is taken from the wire, not from the server's own Connect), bytes sent to it stay below bytes received from it; an address that only sent undersized SYN-typed datagrams receives nothing.",
     "byte-accounting monitor at the virtual socket",
     dict(quick=1500, thorough=30000), require=["amp_undersized_syn", "amp_valid_syn_same_nonce", "c18_addresses_that_got_a_reply", "c18_undersized_only_addresses_checked"])
 
